@@ -336,7 +336,9 @@ continuation: pending `_transmit`, else oldest DATA datagram → SACK, else olde
 3. (bounded progress) from every coherent state (sender invariants — `SndInv.run`: every reachable sender state;
    receiver invariant `RxOk` — `receiver_invariant`: every reachable receiver state; the receiver's cumulative
    TSN equal to or ahead of the sender's — assumed) with an empty network, if the chunk following the cumulative ack
-   survives T3 (is not abandoned: reliable channel), then within `3 + (datagrams in the T3 burst)` steps the
+   survives T3 (is not abandoned: reliable channel) and carries a TSN that was assigned (not beyond `localTsn - 1`; the
+   receiver has only TSNs that were assigned: `Coherent.sent` — a SACK beyond the last TSN assigned is ignored since the
+   fix "ignore a SACK whose cumulative TSN is not within what was sent"), then within `3 + (datagrams in the T3 burst)` steps the
    sender's cumulative ack has strictly advanced — whatever flags, miss counters, congestion window or
    fast-recovery state the fault history left behind, and whatever holes the receiver has.
 
@@ -350,10 +352,11 @@ theorem C02_drains_partial :
     ∧ (∀ (s : Link) (n : Nat), s.Inv → (Link.run n s).Inv)
     ∧ (∀ (s : Link) (c : SChunk) (cs : List SChunk), s.Coherent → s.toRx = [] → s.toTx = [] → s.pending = false →
         s.tx.t3 = true → (s.tx.t3Expired s.now1000).sentQ = c :: cs → c.tsn = tsn_plus_one s.tx.lastSacked →
+        uint32_gt c.tsn (tsn_minus_one s.tx.localTsn) = false →
         uint32_gt (Link.run (3 + (dataOf (s.tx.t3Expired s.now1000).transmit.2).length) s).tx.lastSacked
           s.tx.lastSacked = true) :=
   ⟨Link.stuck_drained, fun _ n h => h.run n,
-   fun s c cs hc hrx htx hp h3 hq hct => Link.epoch_progress s hc hrx htx hp h3 c cs hq hct⟩
+   fun s c cs hc hrx htx hp h3 hq hct hsent => Link.epoch_progress s hc hrx htx hp h3 c cs hq hct hsent⟩
 
 /-- the receiver half of `Link.Coherent` is not an assumption about the history: `RxOk` holds after EVERY sequence
 of arrivals of 32-bit TSNs (any loss, duplication, reordering), starting from the state INIT / INIT-ACK sets up -/
@@ -372,11 +375,13 @@ example : demoLink.Coherent :=
               [.send demoMsg, .send demoMsg])
     rx := ⟨by unfold R32; decide, by intro x hx; simp [demoLink] at hx; subst hx; unfold R32; decide, by decide, by decide⟩
     ls := by unfold R32; decide
-    ahead := ⟨0, by decide, by decide⟩ }
+    ahead := ⟨0, by decide, by decide⟩
+    sent := by decide }
 
 example : demoLink.toRx = [] ∧ demoLink.toTx = [] ∧ demoLink.pending = false ∧ demoLink.tx.t3 = true
     ∧ (demoLink.tx.t3Expired demoLink.now1000).sentQ.map (·.tsn) = [100, 101]
-    ∧ tsn_plus_one demoLink.tx.lastSacked = 100 := by decide
+    ∧ tsn_plus_one demoLink.tx.lastSacked = 100
+    ∧ uint32_gt 100 (tsn_minus_one demoLink.tx.localTsn) = false := by decide
 
 /-- … and there the whole continuation drains: after 8 steps both chunks are acknowledged and nothing is armed -/
 example : (Link.run 8 demoLink).tx.sentQ = [] ∧ (Link.run 8 demoLink).tx.flight = 0
